@@ -136,7 +136,7 @@ func ExportTables(ctx *core.Ctx) *Tables {
 			t.Chains = append(t.Chains, r)
 		}
 	}
-	if len(t.Modes) != 4*16+3*256 || len(t.Chains) < 100 || len(t.Vals) == 0 || len(t.Vals) != len(t.Texts) {
+	if len(t.Modes) != 4*25+3*625 || len(t.Chains) < 100 || len(t.Vals) == 0 || len(t.Vals) != len(t.Texts) {
 		ctx.ToolError("M2 export: incomplete tables (%d modes, %d chains, %d vals): %s", len(t.Modes), len(t.Chains), len(t.Vals), tailS(res.Stdout, 400))
 		return nil
 	}
@@ -409,12 +409,12 @@ func offTables(real *c16.Real, t *Tables, vals []Value) (off, y [][]string, errs
 
 // Run is the entry point for C03.
 func Run(ctx *core.Ctx) {
-	ctx.Rule = "cases: (print site kind in {direct, msg placeholder, let content (printed raw / printed again), param content, through a call, through data=\"all\"}) x (namespace attr, template attr, callee namespace attr, callee template attr) in {unspecified,true,false,contextual}^4 x directive chain of length 0..2 with in-range arguments x value; " +
+	ctx.Rule = "cases: (print site kind in {direct, msg placeholder, let content (printed raw / printed again), param content, through a call, through data=\"all\"}) x (namespace attr, template attr, callee namespace attr, callee template attr) in {unspecified,true,false,contextual,deprecated-contextual}^4 x directive chain of length 0..2 with in-range arguments x value; " +
 		"the tables (is escaping on at the print; class of the chain) are enumerated by TLC from C03Model.tla, the values are the exported ones (strings and non-strings with their texts) plus every single byte, every pair and triple of the five specials, multi-byte/astral/invalid UTF-8, entity-like, tag-like texts and 4KB runs; M3 adds seeded random cases validated by TLC (C03Trace). " +
 		"A case is non-trivial if its value is a non-string or contains one of & < > \" '; distinct by (site, attributes, chain, value)"
 	ctx.Assumptions = append(ctx.Assumptions,
 		"oracle where escaping is on is independent of any expected text: no raw special in the bytes written and the text node decodes (named, decimal and hexadecimal references) to the value / to the input of the last self-escaping directive; where specials may pass (autoescape=\"false\", noAutoescape/id, escapeUri, escapeJsString, json, or a directive applied on top of escaped text) the bytes must equal what the same chain writes in a template with autoescape=\"false\"",
-		"'contextual' counts as on; the mode of a callee is derived from its own template/namespace attributes only (pinned by TestAutoescapeModes)",
+		"'contextual' and its old spelling 'deprecated-contextual' count as on; the mode of a callee is derived from its own template/namespace attributes only (pinned by TestAutoescapeModes)",
 		"NUL and non-UTF-8 bytes are identified with U+FFFD when texts are compared; a render that returns an error is not judged here")
 	ctx.Trusted = append(ctx.Trusted, "Go decoders of harness/c16/decoders.go (cross-checked against the TLA+ decoders on every M3 line)")
 	if ctx.ReplayPath != "" {
@@ -442,7 +442,7 @@ func Run(ctx *core.Ctx) {
 // M1
 
 var devs = []string{"iwb_returns_input", "iwb_counts_escaped", "escaper_drops_apos", "callee_inherits", "truncate_cancels",
-	"escapehtml_keeps_autoescape", "nonstring_raw", "nl2br_unescaped", "ns_attr_ignored"}
+	"escapehtml_keeps_autoescape", "nonstring_raw", "nl2br_unescaped", "ns_attr_ignored", "deprecated_contextual_unspecified"}
 
 // ModelCheck runs the reference model (must hold) and the deviations (each
 // must be rejected).
@@ -467,7 +467,7 @@ func ModelCheck(ctx *core.Ctx) {
 		go func(dev string) {
 			defer wg.Done()
 			mode := "chains"
-			if dev == "callee_inherits" || dev == "ns_attr_ignored" {
+			if dev == "callee_inherits" || dev == "ns_attr_ignored" || dev == "deprecated_contextual_unspecified" {
 				mode = "sites"
 			}
 			res, err := c16.RunTLC(ctx, core.TLCOpts{Module: "C03Model", Cfg: cfg03(dev, mode, 1), Workers: 1, Timeout: 5 * time.Minute, Label: "M1-dev-" + dev})
@@ -505,7 +505,7 @@ func isChainStructure(m ModeRow) bool {
 	u := "unspecified"
 	switch m.Site {
 	case "direct":
-		return m.NS == u && (m.T == u || m.T == "false" || m.T == "contextual") || (m.NS == "false" && m.T == "true")
+		return m.NS == u && (m.T == u || m.T == "false" || m.T == "contextual") || (m.NS == "false" && (m.T == "true" || m.T == "deprecated-contextual"))
 	case "msg", "let", "letesc":
 		return m.NS == u && m.T == u
 	case "param":
@@ -523,7 +523,20 @@ func Grid(ctx *core.Ctx, real *c16.Real, t *Tables, vals []Value, off, y [][]str
 		sample int // 0: every value; 1: the mode-grid sample; 2: the sample for chains of two
 	}
 	var jobs []job
+	// quick tier: rows with two or more "deprecated-contextual" attributes are sampled by
+	// seed (1/3); every row with at most one is kept, so every attribute value still
+	// appears at every position with every other combination of the four older values
+	rowRand := rand.New(rand.NewSource(ctx.Seed + 11))
 	for mi, m := range t.Modes {
+		dc := 0
+		for _, a := range []string{m.NS, m.T, m.CNS, m.CT} {
+			if a == "deprecated-contextual" {
+				dc++
+			}
+		}
+		if dc >= 2 && !ctx.Thorough() && rowRand.Intn(3) != 0 && !isChainStructure(m) {
+			continue
+		}
 		for ci := range t.Chains {
 			if isChainStructure(m) {
 				k := 0
@@ -537,12 +550,12 @@ func Grid(ctx *core.Ctx, real *c16.Real, t *Tables, vals []Value, off, y [][]str
 		}
 	}
 	// the samples: all exported values, the specials alone and in pairs, the rest by seed
-	// (quick: 1/8 of the rest; thorough: 1/6 for the mode grid, 1/3 for chains of two)
+	// (quick: 1/12 of the rest for the mode grid, 1/8 for chains of two; thorough: 1/6 and 1/3)
 	r := rand.New(rand.NewSource(ctx.Seed))
 	inSample := [3][]bool{nil, make([]bool, len(vals)), make([]bool, len(vals))}
 	for vi, v := range vals {
 		must := v.ExpIdx >= 0 || (len(v.Text) <= 2 && v.Text != "" && strings.Trim(v.Text, "&<>\"'") == "")
-		inSample[1][vi] = must || r.Intn(ctx.Pick(8, 6)) == 0
+		inSample[1][vi] = must || r.Intn(ctx.Pick(12, 6)) == 0
 		inSample[2][vi] = must || r.Intn(ctx.Pick(8, 3)) == 0
 	}
 	ch := make(chan job, 256)
